@@ -27,7 +27,8 @@ from elementpath.helpers import node_position, get_double
 from elementpath.namespaces import XSD_ERROR, get_namespace, get_expanded_name
 from elementpath.datatypes import UntypedAtomic, QName, AnyURI, \
     Duration, Integer
-from elementpath.xpath_nodes import ElementNode, DocumentNode, XPathNode, AttributeNode
+from elementpath.xpath_nodes import ElementNode, DocumentNode, XPathNode, AttributeNode, \
+    NamespaceNode
 from elementpath.sequences import xlist
 from elementpath.sequence_types import is_instance
 from elementpath.xpath_context import XPathSchemaContext
@@ -249,7 +250,13 @@ def evaluate__instance_expression(self: XPathToken, context: ta.ContextType = No
             if context.axis is None:
                 context.axis = 'self'
 
-            result = self[1].evaluate(context)
+            if self[1].symbol in ('attribute', 'schema-attribute') and \
+                    not isinstance(context.item, AttributeNode) or \
+                    self[1].symbol == 'namespace-node' and \
+                    not isinstance(context.item, NamespaceNode):
+                result = []  # these tests select from an element when used as path steps
+            else:
+                result = self[1].evaluate(context)
             if isinstance(result, list) and not result:
                 # An item that doesn't match the item type: the occurrence indicator
                 # is about the number of items, it cannot make the item acceptable.
@@ -301,6 +308,12 @@ def evaluate__treat_expression(self: XPathToken, context: ta.ContextType = None)
             item_context.item = item
             if item_context.axis is None:
                 item_context.axis = 'self'
+
+            if self[1].symbol in ('attribute', 'schema-attribute') and \
+                    not isinstance(item, AttributeNode) or \
+                    self[1].symbol == 'namespace-node' and \
+                    not isinstance(item, NamespaceNode):
+                raise self.error('XPDY0050')
 
             result = self[1].evaluate(item_context)
             if not result and isinstance(result, list):
